@@ -310,6 +310,64 @@ def sort_case(sink, seed, idx):
     sink.case(harness.fp('sort', repr(keys)), len(keys) >= 3 and len(types) >= 2, ident if idx % 300 == 0 else None)
 
 
+class NormNT(U.Point):
+    """namedtuple subclass whose constructor normalises (idempotently): y is always kept in a 1-tuple."""
+
+    __slots__ = ()
+
+    def __new__(cls, x, y):
+        return super().__new__(cls, x, y if type(y) is tuple else (y,))
+
+
+class CountNT(U.Point):
+    """namedtuple subclass whose constructor validates its arguments."""
+
+    __slots__ = ()
+
+    def __new__(cls, x, y):
+        if x is None:
+            raise ValueError('x must not be None')
+        return super().__new__(cls, x, y)
+
+
+class LookAlike(tuple):
+    """has every trait the namedtuple heuristic checks, but the constructor is tuple's own."""
+
+    _fields = ('a', 'b')
+
+    @classmethod
+    def _make(cls, it):
+        return tuple.__new__(cls, it)
+
+    def _asdict(self):
+        return dict(zip(self._fields, self))
+
+
+def hostile_namedtuple_twin(sink):
+    """one-level twin on namedtuple-kind nodes whose constructor is not equivalent to _make:
+    rebuild from the node's own children and from fresh ones, engine vs python handler."""
+    nodes = [NormNT(U.Leaf(1), U.Leaf(2)), NormNT(U.Leaf(1), (U.Leaf(2), U.Leaf(3))), CountNT(U.Leaf(1), None), LookAlike((U.Leaf(1), U.Leaf(2))), U.Point(U.Leaf(1), U.Leaf(2)), U.Typed(1, 2, 3)]
+    for node in nodes:
+        for ns in ('', U.NS):
+            for nil in (False, True):
+                ident = dict(part='hostile-namedtuple', cls=type(node).__name__, ns=ns, nil=nil)
+                stop = lambda x, node=node: x is not node  # noqa: E731
+                leaves, spec = optree.tree_flatten(node, is_leaf=stop, none_is_leaf=nil, namespace=ns)
+                out = optree.tree_flatten_one_level(node, none_is_leaf=nil, namespace=ns)
+                for label, kids in (('own', list(out.children)), ('fresh', [U.Leaf(('f', i)) for i in range(len(out.children))]), ('none-first', [None] + [U.Leaf(('g', i)) for i in range(len(out.children) - 1)])):
+                    def run(f):
+                        try:
+                            return ('ok', f())
+                        except Exception as e:  # noqa: BLE001
+                            return ('exc', type(e).__name__)
+                    eng = run(lambda: spec.unflatten(kids) if nil or None not in kids else optree.tree_structure(node, is_leaf=stop, none_is_leaf=True, namespace=ns).unflatten(kids))
+                    py = run(lambda: out.unflatten_func(out.metadata, kids))
+                    ok = eng[0] == py[0] and (eng[1] == py[1] if eng[0] == 'exc' else same.diff(eng[1], py[1]) is None)
+                    sink.check(ok, f'one-level/unflatten/namedtuple-constructor/{type(node).__name__}', 'unflatten_func(metadata, children) equals the engine rebuild', dict(ident, children=label),
+                               lambda: (repr(eng)[:200], repr(py)[:200]))
+                    sink.count('hostile-namedtuple-rebuilds')
+
+
 def nodes_of(tree, sh, acc):
     if sh.kind == 'leaf':
         return
@@ -388,6 +446,7 @@ def run_shard(sink, tier, seed, shard):
             sink.check(cx[name] == py[name], f'classify/{name}/fixed', 'the C++ and Python implementations agree on fixed subjects', dict(subject=repr(x)[:80], func=name), lambda: (cx[name], py[name]))
     if i0 == 0:
         sink.guard('harness', 'history', {}, lambda: history_independence(sink, seed, tier))
+        sink.guard('harness', 'hostile-namedtuple', {}, lambda: hostile_namedtuple_twin(sink))
     for idx in range(i0, n_sort, step):
         sink.guard('harness', 'sort', dict(index=idx), lambda: sort_case(sink, seed, idx))
     for idx in range(i0, n_one, step):
@@ -402,3 +461,4 @@ def finalize(sink, tier, seed):
     sink.require('sort-lists:stage2')
     sink.require('sort-lists:stage3')
     sink.require('one-level-nodes', 500)
+    sink.require('hostile-namedtuple-rebuilds')
